@@ -261,8 +261,47 @@ def mutants_of(prog, q):
             new_src = '\n'.join(lines[:start] + [new_seg] + lines[end:])
             yield (path, new_src, '%s [p-rename-local #%d] PRESERVING rename '
                    '%s -> %s' % (q, i, name, new))
+    if 'p-add-log' in KINDS:
+        # a logging statement added before the i-th statement of a block
+        def blocks(n):
+            for fld in ('body', 'orelse', 'finalbody'):
+                seq = getattr(n, fld, None)
+                if isinstance(seq, list) and seq and \
+                        isinstance(seq[0], ast.stmt):
+                    yield seq
+            for h in getattr(n, 'handlers', []) or []:
+                yield h.body
+        k = 0
+        base_nodes = [x for x in ast.walk(tree)
+                      if not isinstance(x, ast.Module)]
+        for bi, bn in enumerate(base_nodes):
+            for si, seq in enumerate(list(blocks(bn))):
+                for pos in range(len(seq) + 1):
+                    if pos == 0 and isinstance(seq[0], ast.Expr) and \
+                            isinstance(seq[0].value, ast.Constant):
+                        continue   # not before a docstring
+                    t = copy.deepcopy(tree)
+                    tn = [x for x in ast.walk(t)
+                          if not isinstance(x, ast.Module)][bi]
+                    tseq = list(blocks(tn))[si]
+                    log = ast.parse("LOG.debug('checkpoint %d')" % k).body[0]
+                    tseq.insert(pos, log)
+                    ast.fix_missing_locations(t)
+                    new_seg = textwrap.indent(ast.unparse(t), ' ' * indent)
+                    new_src = '\n'.join(lines[:start] + [new_seg] +
+                                        lines[end:])
+                    yield (path, new_src, '%s [p-add-log #%d] PRESERVING log '
+                           'statement added (block %d/%d, position %d)'
+                           % (q, k, bi, si, pos))
+                    k += 1
+                    if k >= 12:
+                        break
+                if k >= 12:
+                    break
+            if k >= 12:
+                break
     for kind in KINDS:
-        if kind == 'p-rename-local':
+        if kind in ('p-rename-local', 'p-add-log'):
             continue
         i = 0
         while True:
